@@ -4,6 +4,8 @@ The real AssociationSocket.recv + DULServiceProvider._read_pdu_data read a gener
 socket that hands out the bytes in generated chunks (every raw recv returns at most the rest of the current chunk), with
 an optional end-of-stream at any byte offset.
 """
+import hashlib
+
 from engines import ps38ref as R
 from engines import vsock as V
 from vlib import sig
@@ -11,51 +13,113 @@ from vlib.core import HarnessError
 
 LEVEL = "exploration"
 RULE = (
-    "Hypothesis draws 1..6 conformant PDUs (E1 strategies, all 7 kinds), a cut list over the concatenated stream (uniform, "
-    "plus cuts biased to offsets 1..6 of a PDU and +-1 around PDU boundaries, plus one-byte-at-a-time delivery) and an optional EOF "
-    "offset. Oracle: the PDUs delivered by _read_pdu_data re-encode to exactly the sent PDU byte strings, in order, each with its "
+    "Hypothesis draws 1..6 conformant PDUs (E1 strategies, all 7 kinds; in a third of the cases one or more large P-DATA-TF whose body - or "
+    "whole PDU - length is at / within 7 bytes of 4096, 8192, 12288, 16384, 20480, 32768, 65536, 69632 or anywhere in 4 KiB..70 KiB, with 1..3 "
+    "PDVs, stored as (context ID, length, fill seed)), a cut list over the concatenated stream (uniform, "
+    "plus cuts biased to offsets 1..6 of a PDU and +-1 around PDU boundaries, plus cuts at / next to multiples of the 4096-byte read size inside "
+    "a large PDU, plus one-byte-at-a-time delivery, plus 'the end of a large PDU and the next PDU travel in one segment'), an optional EOF "
+    "offset, the role of the reading side (acceptor with an accepted client socket / requestor after connect()) and the transport: a plain "
+    "scripted socket or a TLS-like one (an ssl.SSLSocket subclass: chunks are TLS records of at most 16 KiB, select() sees only unread records, "
+    "recv() decrypts one record and keeps the rest where only pending() sees it). "
+    "Oracle: the PDUs delivered by _read_pdu_data (called while AssociationSocket.ready) re-encode to exactly the sent PDU byte strings, in order, each with its "
     "own event; with EOF at offset k exactly the PDUs ending at or before k are delivered, followed by Evt17, never Evt19 or a partial PDU; "
-    "without EOF nothing beyond the delivered PDUs is consumed. A second sub-check runs under E4 (virtual time): a raw requestor sends a valid "
-    "conversation cut into generated segments with generated gaps, every gap shorter than the network timeout; the real acceptor must receive "
+    "without EOF nothing beyond the delivered PDUs is consumed and nothing stays unread. A second sub-check runs under E4 (virtual time): a raw requestor sends a valid "
+    "conversation (A-ASSOCIATE-RQ, 0..2 C-ECHO-RQ, A-RELEASE-RQ) with at most two cuts per PDU, in the header or the body, and a generated gap at "
+    "every cut; the acceptor's three timeouts are all different (acse/dimse/network e.g. 1/2/4..6 or 3/1.5/5) and the gaps are drawn relative to "
+    "them (just below / just above the ACSE and DIMSE timeouts, between the ACSE and the network timeout, just below the network timeout), every "
+    "PDU as a whole faster than the network timeout and the A-ASSOCIATE-RQ faster than the ARTIM (= ACSE) timeout; the real acceptor must receive "
     "exactly the PDUs sent, answer every request and end released. "
-    "Non-trivial = a cut strictly inside a 6-byte header, an EOF strictly inside a PDU, or (E4) >=2 segments with a non-zero gap; distinct = (pdu bytes, cuts, eof)."
+    "Non-trivial = a cut strictly inside a 6-byte header, an EOF strictly inside a PDU, two PDUs (or the tail of one and the head of the next) in one "
+    "chunk, or (E4) >=2 segments with a non-zero gap; distinct = (pdus, cuts, eof, role, transport)."
 )
 ASSUMPTIONS = [
     "socket model of engines/vsock.py (recv returns at most one chunk; EOF readable; b'' at EOF)",
+    "TLS-like transport (engines/vsock._tls_classes): isinstance(sock, ssl.SSLSocket) holds; one chunk = one TLS record (<= 16 KiB plaintext); a recv() "
+    "never returns bytes of two records; bytes of a record that recv() did not return stay buffered in the SSL object, invisible to select(), "
+    "reported by pending(); EOF (also in the middle of a PDU) reads as b''. No handshake, no real cryptography, no TLS alerts; the acceptor "
+    "socket is handed over already wrapped with tls_args unset (what AssociationServer does with ssl_context), the requestor socket is wrapped "
+    "by AssociationSocket.connect() through tls_args = (stand-in context, hostname)",
     "inter-chunk delays are not modelled in the synchronous sub-check; the E4 sub-check ('delays') covers gaps below the network timeout",
-    "E4 substitution table (engines/dsched.py) for the 'delays' sub-check",
+    "E4 substitution table (engines/dsched.py) for the 'delays' sub-check: socket timeouts and timers run on virtual time with a 0.25 s quantum; "
+    "0.75 s are allowed for the turn-around before a PDU starts, so a PDU counts as 'faster than the network timeout' when its gaps sum to "
+    "<= network_timeout - 0.75 s and the A-ASSOCIATE-RQ as 'faster than ARTIM' when its gaps sum to <= acse_timeout - 0.75 s (slower requests are not judged)",
 ]
 SHARDS = {"quick": 1, "thorough": 16}
 
 EVENT_OF = {"AssocRQ": "Evt6", "AssocAC": "Evt3", "AssocRJ": "Evt4", "PData": "Evt10", "ReleaseRQ": "Evt12", "ReleaseRP": "Evt13", "Abort": "Evt16"}
 
 
+def _fill(n, seed):
+    """n reproducible bytes (payload of a large PDV is stored in the case as (length, seed), not as literal bytes)"""
+    return hashlib.shake_256(int(seed).to_bytes(8, "big")).digest(int(n))
+
+
+def expand_pdu(entry):
+    """case entry -> PDU bytes: literal bytes, or ["pdata", [[context_id, data_length, fill_seed], ...]] for a large P-DATA-TF"""
+    if isinstance(entry, (bytes, bytearray)):
+        return bytes(entry)
+    kind, pdvs = entry
+    if kind != "pdata":
+        raise HarnessError(f"unknown PDU description {kind!r}")
+    return R.ref_encode(R.PData([[cid, _fill(n, seed)] for cid, n, seed in pdvs]))
+
+
+TLS_RECORD_MAX = 16384
+READ_SIZE = 4096  # the raw read size AssociationSocket.recv asks for (transport.py); only used to place size classes and cuts
+
+
 def check_stream(ctx, case):
-    pdus = [bytes(p) for p in case["pdus"]]
+    pdus = [expand_pdu(p) for p in case["pdus"]]
     kinds = case["kinds"]
     cuts = list(case["cuts"])
     eof = case["eof"]
+    tls, role = bool(case.get("tls")), case.get("role", "acceptor")
     stream = b"".join(pdus)
     bounds = []
     o = 0
     for p in pdus:
         bounds.append((o, o + len(p)))
         o += len(p)
-    in_header = any(any(b0 < c < b0 + 6 for b0, _ in bounds) for c in cuts if eof is None or c < eof)
+    if tls:
+        # a TLS record carries at most 16 KiB of plaintext: longer chunks are several records
+        prev, extra = 0, []
+        for c in sorted(set(c for c in cuts if 0 < c < len(stream))) + [len(stream)]:
+            extra += list(range(prev + TLS_RECORD_MAX, c, TLS_RECORD_MAX))
+            prev = c
+        cuts = sorted(set(cuts) | set(extra))
+    live = sorted(set(c for c in cuts if 0 < c < (len(stream) if eof is None else eof)))
+    in_header = any(any(b0 < c < b0 + 6 for b0, _ in bounds) for c in live)
     eof_inside = eof is not None and any(b0 < eof < b1 for b0, b1 in bounds)
-    ctx.note(
-        case,
-        nontrivial=in_header or eof_inside,
-        classes=[f"n={len(pdus)}", "eof" if eof is not None else "no-eof"] + (["cut-in-header"] if in_header else []) + (["eof-inside-pdu"] if eof_inside else []) + (["bytewise"] if len(cuts) >= len(stream) - 1 and len(stream) > 8 else []),
-    )
+    end = len(stream) if eof is None else eof
+    # two PDUs (or the tail of one and the head of the next) arrive in one chunk: a PDU boundary that is not a cut
+    shared = [b1 for _, b1 in bounds[:-1] if b1 < end and b1 not in live]
+    big = [i for i, p in enumerate(pdus) if len(p) - 6 >= READ_SIZE]
+    big_tail_shared = any(bounds[i][1] in shared and (len(pdus[i]) - 6) % READ_SIZE != 0 for i in big)
+    classes = [f"n={len(pdus)}", "eof" if eof is not None else "no-eof", "tls-like" if tls else "plain", role]
+    classes += (["cut-in-header"] if in_header else []) + (["eof-inside-pdu"] if eof_inside else [])
+    classes += ["bytewise"] if len(cuts) >= len(stream) - 1 and len(stream) > 8 else []
+    classes += ["pdus-share-chunk"] if shared else []
+    classes += ["pdus-share-chunk:" + ("tls-like" if tls else "plain") + ":" + role] if shared else []
+    if big:
+        mx = max(len(pdus[i]) - 6 for i in big)
+        classes += ["big-pdu", "body>=65536" if mx >= 65536 else ("body>=16384" if mx >= 16384 else ("body>=8192" if mx >= 8192 else "body>=4096"))]
+        if any(abs(((len(pdus[i]) - 6 + 8) % READ_SIZE) - 8) <= 8 for i in big):
+            classes.append("body-near-multiple-of-read-size")
+        if big_tail_shared:
+            classes.append("big-pdu-tail-shares-chunk-with-next")
+    ctx.note(case, nontrivial=in_header or eof_inside or bool(shared), classes=classes)
     if eof is None:
         n_expect = len(pdus)
     else:
         n_expect = sum(1 for _, b1 in bounds if b1 <= eof)
 
     with V.installed():
-        h = V.SyncDUL(mode="acceptor", state="Sta6")
+        h = V.SyncDUL(mode=role, state="Sta6", tls=tls)
+        if role == "requestor":
+            h.connect_now()
         raw, dul = h.raw, h.dul
+        while not dul.event_queue.empty():
+            dul.event_queue.get(False)
         data = stream if eof is None else stream[:eof]
         raw.feed(data, cuts)
         raw.eof = eof is not None
@@ -81,13 +145,22 @@ def check_stream(ctx, case):
         if stalled:
             raise HarnessError("blocking read although every PDU is complete or followed by EOF")
 
+        how = f"{'tls-like' if tls else 'plain'} {role}, lens={[len(p) for p in pdus]} cuts={cuts[:20]} eof={eof}"
         want_events = [EVENT_OF[k] for k in kinds[:n_expect]] + (["Evt17"] if eof is not None else [])
         if "Evt19" in events:
-            ctx.fail("truncated-as-invalid", "Evt19", f"valid stream produced Evt19: events={events} want={want_events} cuts={cuts} eof={eof}")
+            ctx.fail("truncated-as-invalid", "Evt19", f"valid stream produced Evt19: events={events} want={want_events} {how}")
             return
         if events != want_events:
-            key = "missing-or-extra-pdu" if [e for e in events if e != "Evt17"] != want_events[:n_expect] else "evt17"
-            ctx.fail("event-sequence", key, f"events={events} want={want_events} cuts={cuts[:20]} eof={eof} lens={[len(p) for p in pdus]}")
+            pdu_events = [e for e in events if e != "Evt17"]
+            if "Evt17" in events and len(pdu_events) < n_expect and pdu_events == want_events[: len(pdu_events)]:
+                key = "evt17-before-complete-pdu"  # a read came back shorter/longer than the PDU although all of its bytes were sent
+            elif eof is None and "Evt17" in events:
+                key = "evt17-without-eof"
+            elif tls and events == want_events[: len(events)] and raw.pending():
+                key = "tls-buffered-pdu-not-read"  # decrypted bytes wait inside the SSL object, the socket is reported not ready
+            else:
+                key = "missing-or-extra-pdu" if [e for e in events if e != "Evt17"] != want_events[:n_expect] else "evt17"
+            ctx.fail("event-sequence", key, f"events={events} want={want_events} {how}; {raw.unread()} bytes not read")
             return
         if len(got) != n_expect:
             ctx.fail("pdu-count", "count", f"{len(got)} PDUs delivered, expected {n_expect}")
@@ -99,11 +172,11 @@ def check_stream(ctx, case):
                 ctx.fail("exception", sig.exc_key(e), f"delivered PDU cannot be encoded: {e!r}")
                 return
             if enc != want:
-                ctx.fail("pdu-bytes", kinds[i], f"PDU #{i} ({kinds[i]}) differs from what was sent\n want={want.hex()[:400]}\n got ={enc.hex()[:400]}\n cuts={cuts[:20]}")
+                ctx.fail("pdu-bytes", kinds[i], f"PDU #{i} ({kinds[i]}) differs from what was sent\n want={want.hex()[:400]}\n got ={enc.hex()[:400]}\n {how}")
                 return
         # nothing beyond the delivered PDUs (+ the partial one at EOF) may have been consumed
-        if eof is None and raw.pending() != 0:
-            ctx.fail("leftover", "unread", f"{raw.pending()} bytes left unread")
+        if eof is None and raw.unread() != 0:
+            ctx.fail("leftover", "unread", f"{raw.unread()} bytes left unread")
 
 
 CHECKS = {"stream": check_stream}
@@ -123,15 +196,45 @@ def run(ctx):
     ac = st.builds(R.AssocAC, S.ae_title(), S.ae_title(), S.uid(), st.lists(st.builds(R.PCAC, S.cid, st.integers(0, 4), S.uid()), max_size=3), S.ac_items, st.just(1))
     pdu = st.one_of(S.assoc_rq(3, leads=False), ac, S.rj, S.pdata, S.pdata, st.just(R.ReleaseRQ()), st.just(R.ReleaseRP()), S.abort)
 
+    # size classes: P-DATA-TF whose body (or whole PDU) length is at / just around 4096, 8192, 16384, 65536 and other multiples of
+    # the implementation's raw read size, or anywhere in 4 KiB..70 KiB; stored as (context id, data length, fill seed) per PDV
+    @st.composite
+    def big_pdata(draw):
+        if draw(st.integers(0, 5)) == 0:
+            body = draw(st.integers(READ_SIZE - 6, 70000))
+        else:
+            base = draw(st.sampled_from([4096, 4096, 4096, 8192, 8192, 16384, 16384, 65536, 65536, 12288, 20480, 32768, 69632]))
+            delta = draw(st.sampled_from([-7, -6, -5, -2, -1, 0, 0, 1, 2, 5, 6, 7, 100, 2000]))
+            body = base + delta - (6 if draw(st.integers(0, 2)) == 0 else 0)  # the body, or the PDU with its header, has that length
+        npdv = draw(st.sampled_from([1, 1, 1, 2, 3]))
+        sizes = []
+        rest = body
+        for i in range(npdv - 1):
+            sz = draw(st.integers(6, max(rest - 6 * (npdv - i - 1), 6)))
+            sizes.append(sz)
+            rest -= sz
+        sizes.append(rest)
+        return ["pdata", [[draw(S.cid), sz - 5, draw(st.integers(0, 2**32 - 1))] for sz in sizes if sz >= 6]]
+
     @st.composite
     def cases(draw):
-        vals = [canon(v) for v in draw(st.lists(pdu, min_size=1, max_size=6 if not ctx.quick else 4))]
-        enc = [R.ref_encode(v) for v in vals]
-        total = sum(len(e) for e in enc)
+        n = draw(st.integers(1, 6 if not ctx.quick else 4))
+        want_big = draw(st.integers(0, 2)) == 0
+        entries, kinds = [], []
+        for i in range(n):
+            if want_big and draw(st.integers(0, 1 if n > 1 else 0)) == 0:
+                entries.append(draw(big_pdata()))
+                kinds.append("PData")
+            else:
+                v = canon(draw(pdu))
+                entries.append(R.ref_encode(v))
+                kinds.append(type(v).__name__)
+        lens = [len(expand_pdu(e)) for e in entries]
+        total = sum(lens)
         starts, o = [], 0
-        for e in enc:
+        for ln in lens:
             starts.append(o)
-            o += len(e)
+            o += ln
         mode = draw(st.integers(0, 5))
         cuts = set()
         if mode == 0 and total <= 600:
@@ -144,6 +247,18 @@ def run(ctx):
                     if 0 < s0 + d < total:
                         cuts.add(s0 + d)
             cuts |= set(draw(st.lists(st.integers(1, max(total - 1, 1)), max_size=4)))
+        for s0, ln in zip(starts, lens):
+            if ln - 6 >= READ_SIZE and draw(st.booleans()):
+                # segment boundaries at / next to multiples of the read size inside a large PDU (counted from its start or its body)
+                for _ in range(draw(st.integers(1, 3))):
+                    c = s0 + draw(st.sampled_from([0, 6])) + READ_SIZE * draw(st.integers(1, max((ln - 6) // READ_SIZE, 1))) + draw(st.sampled_from([-1, 0, 0, 1]))
+                    if 0 < c < total:
+                        cuts.add(c)
+        if want_big and draw(st.booleans()):
+            # the end of a large PDU and the PDU that follows travel in one segment
+            for s0, ln in zip(starts, lens):
+                if ln - 6 >= READ_SIZE:
+                    cuts -= set(range(s0 + ln - READ_SIZE + 1, s0 + ln + 7))
         eof = None
         if draw(st.booleans()):
             if draw(st.booleans()):
@@ -151,9 +266,11 @@ def run(ctx):
                 eof = min(max(s0 + draw(st.integers(-1, 7)), 0), total)
             else:
                 eof = draw(st.integers(0, total))
-        return {"pdus": enc, "kinds": [type(v).__name__ for v in vals], "cuts": sorted(cuts), "eof": eof}
+        tls = draw(st.sampled_from([False, False, True]))
+        role = draw(st.sampled_from(["acceptor", "requestor"]))
+        return {"pdus": entries, "kinds": kinds, "cuts": sorted(cuts), "eof": eof, "tls": tls, "role": role}
 
-    ctx.hyp("stream", cases(), 1200 if ctx.quick else 4000)
+    ctx.hyp("stream", cases(), 1500 if ctx.quick else 5000)
 
 
 # ------------------------------------------------------------------------------------------------ E4: gaps between segments
@@ -161,33 +278,61 @@ def run(ctx):
 def check_delays(ctx, case):
     """A raw requestor sends a valid conversation (A-ASSOCIATE-RQ, C-ECHO requests, A-RELEASE-RQ) cut into generated segments with
     generated virtual delays between segments, every gap shorter than the network timeout; the real acceptor must receive exactly the
-    PDUs sent, answer every request and end released."""
+    PDUs sent, answer every request and end released.
+    case: network [, acse, dimse] timeouts; n_echo; cuts[i] = cut offsets of PDU i; gaps[i][j] = pause after the j-th segment of PDU i
+    (or one "gap" for every cut: the format of the first version of this sub-check)."""
     from engines import scenario as SC
 
-    to = {"acse": 60, "dimse": 60, "network": case["network"], "connection": 5}
+    acse, dimse, network = case.get("acse", 60), case.get("dimse", 60), case["network"]
+    to = {"acse": acse, "dimse": dimse, "network": network, "connection": 5}
     pdus = [R.ref_encode(SC.RAW_RQ)] + [SC.dimse_bytes("echo", i + 1) for i in range(case["n_echo"])] + [R.ref_encode(R.ReleaseRQ())]
     script = []
+    took, all_gaps, where = [], [], set()
     for i, p in enumerate(pdus):
-        cuts = [c for c in case["cuts"][i] if 0 < c < len(p)]
+        cuts = sorted(set(c for c in case["cuts"][i] if 0 < c < len(p)))
+        gaps = list(case["gaps"][i]) if case.get("gaps") is not None else [case["gap"]] * len(cuts)
+        gaps = (gaps + [0.0] * len(cuts))[: len(cuts)]
         prev = 0
-        for c in sorted(set(cuts)) + [len(p)]:
+        for j, c in enumerate(cuts + [len(p)]):
             script.append(["send", p[prev:c]])
             prev = c
             if c != len(p):
-                script.append(["sleep", case["gap"]])
+                script.append(["sleep", gaps[j]])
+                if gaps[j] > 0:
+                    where.add(("rq" if i == 0 else ("release" if i == len(pdus) - 1 else "p-data")) + ("-header" if c < 6 else "-body"))
+        took.append(sum(gaps))
+        all_gaps += [g for g in gaps if g > 0]
         script.append(["recv_pdu", 30])
     script += [["recv_until_close", 5], ["close"]]
     sc = {"timeouts": to, "max_steps": 80000, "quantum": 0.25, "acceptor": {"kind": "pynetdicom", "handlers": {}},
           "requestors": [{"kind": "raw", "script": script}], "schedule": {"policy": case["policy"], "seed": case["seed"], "preemptions": [], "nudges": []}}
+    n_seg = sum(len([c for c in cs if c > 0]) for cs in case["cuts"])
+    longest = max(took, default=0)
+    # the idle timer runs from the previous complete PDU: allow 0.75 s for the peer's own turn-around (virtual quanta) before this PDU starts
+    slow = longest + 0.75 > network
+    # the ARTIM timer (= acse_timeout) runs from the transport connection until the A-ASSOCIATE-RQ has been received: a request that takes
+    # longer may legitimately be cut off (PS3.8 9.1.5) - outside "within the configured timeouts"
+    rq_slow = took[0] + 0.75 > acse
+    classes = ["delays", "pdu-slower-than-network-timeout" if slow else "pdu-faster-than-network-timeout"] + sorted("gap-in-" + w for w in where)
+    if acse != dimse and dimse != network and acse != network:
+        classes.append("three-different-timeouts")
+    for g in all_gaps:
+        for name, t in (("acse", acse), ("dimse", dimse), ("network", network)):
+            if 0 < t - g <= 0.75:
+                classes.append(f"gap-just-below-{name}-timeout")
+        if min(acse, dimse) < g < network:
+            classes.append("gap-above-smallest-timeout-below-network-timeout")
+        if acse < g < network and not slow:
+            classes.append("gap-between-acse-and-network-timeout")
+    classes = sorted(set(classes))
+    if rq_slow:
+        ctx.note(case, nontrivial=False, classes=classes + ["rq-slower-than-artim:not-judged"])
+        return
     out = SC.run(sc)
     peer = out["raw"][0]
     if peer.error:
         raise HarnessError(f"raw peer failed: {peer.error}")
-    n_seg = sum(len([c for c in cs if c > 0]) for cs in case["cuts"])
-    longest = max((len([c for c in case["cuts"][i] if 0 < c < len(p)]) * case["gap"] for i, p in enumerate(pdus)), default=0)
-    # the idle timer runs from the previous complete PDU: allow 0.75 s for the peer's own turn-around (virtual quanta) before this PDU starts
-    slow = longest + 0.75 > case["network"]
-    ctx.note(case, nontrivial=n_seg >= 2 and case["gap"] > 0, classes=["delays", out["how"], "pdu-slower-than-network-timeout" if slow else "pdu-faster-than-network-timeout"])
+    ctx.note(case, nontrivial=n_seg >= 2 and bool(all_gaps), classes=classes + [out["how"]])
     if out["how"] == "budget":
         ctx.inconclusive += 1
         return
@@ -198,12 +343,13 @@ def check_delays(ctx, case):
     got = [e[3] for e in out["_rec_acc"].events if e[2] == "EVT_PDU_RECV"]
     kinds = [(b[0] if b else b) for b in peer.received]
     key = "slow-pdu" if slow else "fast-pdu"
+    desc = f"gaps {[case['gaps'][i] for i in range(len(pdus))] if case.get('gaps') is not None else case['gap']} s at cuts {case['cuts']} (timeouts: acse {acse}, dimse {dimse}, network {network} s)"
     if got != pdus:
-        ctx.fail("pdus-received", key, f"acceptor received {len(got)} PDUs {[g[:1].hex() for g in got if isinstance(g, bytes)]}, {len(pdus)} were sent in segments with gaps of {case['gap']} s (< network timeout {case['network']} s); peer saw {kinds}; longest PDU took {longest} s")
+        ctx.fail("pdus-received", key, f"acceptor received {len(got)} PDUs {[g[:1].hex() for g in got if isinstance(g, bytes)]}, {len(pdus)} were sent in segments with {desc}; peer saw {kinds}; longest PDU took {longest} s")
         return
     want = [2] + [4] * case["n_echo"] + [6]
     if [k for k in kinds if k not in (b"", None)][: len(want)] != want:
-        ctx.fail("answers", key, f"peer received {kinds}, expected AC, {case['n_echo']} C-ECHO responses and A-RELEASE-RP")
+        ctx.fail("answers", key, f"peer received {kinds}, expected AC, {case['n_echo']} C-ECHO responses and A-RELEASE-RP; {desc}")
 
 
 CHECKS["delays"] = check_delays
@@ -213,14 +359,32 @@ _run_sync = run
 def run(ctx):
     from hypothesis import strategies as st
 
+    from engines import scenario as SC
+
     _run_sync(ctx)
+    rq_len, echo_len = len(R.ref_encode(SC.RAW_RQ)), len(SC.dimse_bytes("echo", 1))
 
     @st.composite
     def case(draw):
-        network = draw(st.sampled_from([2, 4]))
+        # three different timeouts; the socket timeout of an accepted connection must be the network timeout, not one of the others
+        acse, dimse, network = draw(st.sampled_from([(1, 2, 4), (1, 2, 5), (1, 2, 6), (1, 2.5, 5), (3, 1.5, 5), (3, 2, 6), (2, 1, 4), (2, 3, 6)]))
         n_echo = draw(st.integers(0, 2))
-        gap = draw(st.sampled_from([0.0, 0.3, 0.9, 1.5])) if network == 2 else draw(st.sampled_from([0.0, 0.5, 1.9, 3.5]))
-        cuts = [draw(st.lists(st.one_of(st.integers(1, 7), st.integers(1, 300)), max_size=4)) for _ in range(n_echo + 2)]
-        return {"network": network, "n_echo": n_echo, "gap": gap, "cuts": cuts, "policy": draw(st.sampled_from(["fifo", "random"])), "seed": draw(st.integers(0, 9999))}
+        lens = [rq_len] + [echo_len] * n_echo + [10]
+        cuts, gaps = [], []
+        for i, ln in enumerate(lens):
+            # at most two cuts per PDU, so that the whole PDU stays faster than the network timeout (and the request faster than ARTIM)
+            budget = (acse if i == 0 else network) - 0.75
+            k = draw(st.sampled_from([0, 1, 1, 1, 2]))
+            cs = sorted(set(draw(st.one_of(st.integers(1, 5), st.integers(6, ln - 1))) for _ in range(k)))
+            gs = []
+            for _ in cs:
+                # relative to each timeout: just below / just above acse and dimse, between acse and network, just below network
+                g = draw(st.sampled_from([network - 0.75, acse + 0.25, (acse + network) / 2, dimse + 0.25, network - 1.0, acse - 0.25, dimse - 0.25, acse + 0.5, 0.25, network - 0.75]))
+                g = max(min(g, budget - sum(gs)), 0.0)
+                gs.append(round(g * 4) / 4)
+            cuts.append(cs)
+            gaps.append(gs)
+        return {"acse": acse, "dimse": dimse, "network": network, "n_echo": n_echo, "cuts": cuts, "gaps": gaps,
+                "policy": draw(st.sampled_from(["fifo", "random"])), "seed": draw(st.integers(0, 9999))}
 
-    ctx.hyp("delays", case(), 40 if ctx.quick else 400)
+    ctx.hyp("delays", case(), 400 if ctx.quick else 1200)
